@@ -348,6 +348,7 @@ type worldA struct {
 	epochs     []cfgEpoch
 	heapNext   uint64 // simulated heap reading for the next monitor tick (0: below limit)
 	ejections  []*ejection
+	deferredTick map[int]bool // workers with a send tick waiting in the ticker's channel
 	pendingEj  *ejection
 	tickLog    []*tickRec
 	nWorkers   int
@@ -368,6 +369,11 @@ type tickRec struct {
 	// undecided traces of this worker with deadline <= at, before the tick
 	expired []*traceModel
 	maxExp  int
+	// deferred: the worker was stalled when the tick fired; the tick waits in the
+	// ticker's channel and is judged when the worker handles it (a record with
+	// handled set, made at that moment)
+	deferred bool
+	handled  bool
 }
 
 type ejection struct {
@@ -465,7 +471,7 @@ func (w *worldA) epochAt(step int) cfgEpoch {
 }
 
 func newWorldA(p *Plan, out *Outcome, preStart func(w *worldA)) *worldA {
-	w := &worldA{p: p, out: out, traces: map[string]*traceModel{}, byIdx: map[int]*traceModel{}, spans: map[string]*spanRec{},
+	w := &worldA{p: p, out: out, deferredTick: map[int]bool{}, traces: map[string]*traceModel{}, byIdx: map[int]*traceModel{}, spans: map[string]*spanRec{},
 		qIn: map[int][]*spanRec{}, qPeer: map[int][]*spanRec{}, lru: map[int][]string{}, afterEj: map[int]map[int][]collect.VerifTraceInfo{}}
 	w.start = time.Now()
 	w.nWorkers = int(p.Get("workers", 1))
@@ -561,6 +567,32 @@ func newWorldA(p *Plan, out *Outcome, preStart func(w *worldA)) *worldA {
 
 // onTrace observes refinery's own tracing calls (existing seam).
 func (w *worldA) onTrace(name string, attr func(string) (attribute.Value, bool)) {
+	if name == "sendExpiredTracesInCache" {
+		// the worker handles a send tick now; if that tick fired while the worker
+		// was stalled, this is the moment it is judged at
+		v, ok := attr("worker_id")
+		if !ok {
+			return
+		}
+		wid := int(v.AsInt64())
+		w.mu.Lock()
+		defer w.mu.Unlock()
+		if !w.deferredTick[wid] {
+			return
+		}
+		delete(w.deferredTick, wid)
+		now := time.Now()
+		tr := &tickRec{step: w.out.Steps, worker: wid, at: now, maxExp: int(w.curTraces().MaxExpiredTraces), handled: true}
+		for _, tm := range w.traces {
+			if tm.live && tm.worker == wid && !tm.deadline.After(now) {
+				tr.expired = append(tr.expired, tm)
+			}
+		}
+		sort.Slice(tr.expired, func(i, j int) bool { return tr.expired[i].idx < tr.expired[j].idx })
+		w.tickLog = append(w.tickLog, tr)
+		w.out.Probe("tick_handled_after_worker_stall")
+		return
+	}
 	if name != "processSpan" {
 		return
 	}
@@ -1116,6 +1148,13 @@ func (w *worldA) hooks() {
 				}
 			}
 			sort.Slice(tr.expired, func(i, j int) bool { return tr.expired[i].idx < tr.expired[j].idx })
+			if w.tr.Parked(fmt.Sprintf("collect_worker/%d", wid)) {
+				tr.deferred = true
+				w.out.Probe("tick_fired_while_worker_stalled")
+				w.mu.Lock()
+				w.deferredTick[wid] = true
+				w.mu.Unlock()
+			}
 			w.tickLog = append(w.tickLog, tr)
 		}
 		if strings.Contains(tk.Key, "monitor") && w.heapNext > 0 {
@@ -1163,6 +1202,15 @@ func (w *worldA) hooks() {
 	w.drv.TickGate = func(tk *SimTicker) bool {
 		if wid, ok := workerOfTickKey(tk.Key); ok {
 			if w.tr.Parked(fmt.Sprintf("collect_worker/%d", wid)) || len(w.qIn[wid])+len(w.qPeer[wid]) > 0 {
+				// except, in plans that stall workers in a gap of the traffic: one tick
+				// is let through to a stalled worker with nothing else to do (it waits in
+				// the ticker's channel; still a single ready input when the stall ends)
+				w.mu.Lock()
+				pending := w.deferredTick[wid]
+				w.mu.Unlock()
+				if w.p.On("late_tick") && !pending && len(w.qIn[wid])+len(w.qPeer[wid]) == 0 && w.tr.Parked(fmt.Sprintf("collect_worker/%d", wid)) {
+					return true
+				}
 				return false
 			}
 		}
